@@ -85,6 +85,23 @@ def item(case, run):
             else:
                 m = f"sv_gres (validate_register {dv} {greg(False, run['dim'], run['pts'], 'None')})"
         return m, sv(run["outcome"])
+    if k == "hist":
+        if not run["built"]:
+            return "(SL [SZ 97])", sv([97])
+        lay_t = glayout(True, run["ldim"], run["traps"])
+        rg = greg(True, run["dim"], run["pts"], "(Some %s)" % lay_t)
+        terms = []
+        for st in case["steps"]:
+            dv = gdev(case["devices"][st["dev"]])
+            e = st["entry"]
+            if e in ("validate_register", "sequence"):
+                terms.append(f"sv_gres (validate_register {dv} reg_h)")
+            elif e == "validate_layout":
+                terms.append(f"sv_gres (validate_layout {dv} lay_h)")
+            else:
+                terms.append(f"sv_gres (validate_mappable {dv} lay_h {coq_Z(st['n_ids'])})")
+        m = "(let lay_h := %s in let reg_h := %s in SL %s)" % (lay_t, rg, coq_list(terms))
+        return m, sv(run["outcomes"])
     if k == "dev":
         return f"sv_dres (post_init {dparams(case['params'])})", sv(run["outcome"])
     if k in ("mc", "auto") and run.get("nodev"):
